@@ -155,6 +155,15 @@ type Obs struct {
 	Tables  []string   `json:"tables"`
 	Markers [][]uint64 `json:"markers"`
 	Extra   int        `json:"extra,omitempty"` // datagrams of other types received meanwhile
+	P4      *P4Obs     `json:"p4,omitempty"`
+}
+
+// P4Obs is what the harness' P4Runtime server saw during one request, and what it holds afterwards.
+type P4Obs struct {
+	Rpcs    []P4Rpc        `json:"rpcs"`
+	Entries []*P4Entry     `json:"entries"`
+	Meters  [][6]int64     `json:"meters"`
+	Stats   map[string]int `json:"stats"`
 }
 
 // Decode fills the reply fields of o from the datagrams received for a request with sequence number seq.
